@@ -44,3 +44,7 @@ def replay(path):
     verd.findings = []
     lsem.decide(PROP, [p], "replay", verd, {"states": 0, "transitions": 0}, {}, [], max_steps=30000)
     return verd.finish()
+
+
+def selftest():
+    return lsem.selftest(PROP, lsem.number([("clos", p, root, None) for key, (p, root) in gen_clos.all_clos()[:150]]))
